@@ -133,6 +133,16 @@ class World:
                 self.table["self." + nm] = f
                 self.table[cls + "." + nm] = f
         self.consts = module_consts(self.mod)
+        self.class_consts = {}
+        cdef = self.mod.classes.get(cls)
+        if cdef is not None:
+            cnt = {}
+            for st_ in cdef.body:
+                if isinstance(st_, ast.Assign) and len(st_.targets) == 1 and isinstance(st_.targets[0], ast.Name):
+                    cnt[st_.targets[0].id] = cnt.get(st_.targets[0].id, 0) + 1
+                    if all(isinstance(x, (ast.Constant, ast.BinOp, ast.UnaryOp, ast.operator, ast.unaryop, ast.Tuple, ast.expr_context)) for x in ast.walk(st_.value)):
+                        self.class_consts[st_.targets[0].id] = st_.value
+            self.class_consts = {k: v for k, v in self.class_consts.items() if cnt.get(k) == 1}
         self.opaque = set()          # table keys (or bare method names) that are not followed
         self.pinned = {}             # dotted name -> value: assignments to it are ignored
         self.state = {}              # initial self.* attribute values
@@ -158,6 +168,7 @@ class World:
         self.mult = F.const(1)       # reals per matrix entry in this scenario (2 for complex input)
         self.notes = []
         self.fresh = 0
+        self.txt_lens = []           # (Txt, value of its len()) for texts of unknown length
 
     # ---- bounds
     def bound(self, v, lo, hi, split=False):
@@ -444,9 +455,46 @@ class OP4Eval(AutoEvaluator):
         return self.truth(v)
 
     # ------------------------------------------------------------------------------------------------ integer operators
+    def _split_pow2(self, a, k):
+        """a = q * 2**k + rem with rem the terms whose coefficients are not multiples of 2**k; returned only when 0 <= rem < 2**k is known"""
+        if not a.d.is_const():
+            return None
+        sc = 1 / a.d.const_value()
+        q, rem = F.const(0), F.const(0)
+        two = 2 ** k
+        for m, c in a.n.t.items():
+            c = c * sc
+            if c.denominator != 1:
+                return None
+            if m == ():
+                qq, rr = divmod(c.numerator, two)
+                q, rem = q + qq, rem + rr
+            elif c.numerator % two == 0:
+                q = q + F.Rat(F.Poly({m: c / two}))
+            else:
+                rem = rem + F.Rat(F.Poly({m: c}))
+        lo, hi = self.rng(rem)
+        if lo is not None and hi is not None and lo >= 0 and hi < two:
+            return q, rem
+        return None
+
     def _intop(self, op, a, b, node=None):
-        """//, %, <<, >>, & on polynomial values (bit-operator model of op4_model with the run's table of small values)"""
+        """//, %, <<, >>, & on polynomial values (bit-operator model of op4_model; a low part is dropped / kept only when its interval is
+        known to lie in [0, 2**k))"""
         hook = M.int_binop(self.W.small)
+        if b.is_const() and b.const_value().denominator == 1 and a.d.is_const() and not a.is_const():
+            c = int(b.const_value())
+            k = None
+            if isinstance(op, ast.RShift) and c >= 0:
+                k, want = c, "q"
+            elif isinstance(op, ast.BitAnd) and c > 0 and (c & (c + 1)) == 0:
+                k, want = c.bit_length(), "r"
+            elif isinstance(op, (ast.FloorDiv, ast.Mod)) and c > 1 and (c & (c - 1)) == 0:
+                k, want = c.bit_length() - 1, "q" if isinstance(op, ast.FloorDiv) else "r"
+            if k is not None:
+                sp = self._split_pow2(a, k)
+                if sp is not None:
+                    return sp[0] if want == "q" else sp[1]
         if isinstance(op, (ast.FloorDiv, ast.Mod)) and b.is_const() and not b.is_zero():
             c = b.const_value()
             if c.denominator == 1 and c > 0 and (int(c) & (int(c) - 1)) == 0 and int(c) > 1:
@@ -472,6 +520,17 @@ class OP4Eval(AutoEvaluator):
                     return Unknown("division by zero")
                 return F.const({ast.LShift: lambda: x << y, ast.RShift: lambda: x >> y, ast.BitAnd: lambda: x & y, ast.BitOr: lambda: x | y,
                                 ast.FloorDiv: lambda: x // y}[type(op)]())
+        if isinstance(op, ast.BitOr):
+            # x | y = x + y when y is a multiple of 2**k and 0 <= x < 2**k
+            for x, y in ((a, b), (b, a)):
+                lo, hi = self.rng(x)
+                if lo is None or hi is None or lo < 0 or not y.d.is_const():
+                    continue
+                k = max(int(hi).bit_length(), 1)
+                sc = 1 / y.d.const_value()
+                if all((c * sc).denominator == 1 and int(c * sc) % (2 ** k) == 0 for c in y.n.t.values()):
+                    return x + y
+            return Unknown("`|` of values that are not known to occupy separate bits")
         fake = ast.BinOp(left=ast.Constant(0), op=op, right=ast.Constant(0))
         r = hook(fake, a, b, self)
         if r is NotImplemented:
@@ -580,6 +639,8 @@ class OP4Eval(AutoEvaluator):
                     return FuncV(W.table[d])
                 root = d.split(".")[0]
                 pre = dotted(node.value)
+                if root in ("self", W.cls) and d.count(".") == 1 and node.attr in W.class_consts and d not in self.env:
+                    return self._ev(W.class_consts[node.attr])
                 if root == "self":
                     if d.count(".") == 1:
                         return F.sym(d)
@@ -799,7 +860,14 @@ class OP4Eval(AutoEvaluator):
                     elif is_unknown(p):
                         return p
                     else:
-                        return Unknown(f"text slice bound {p!r}")
+                        # len(text) - k  counts from the end
+                        k = None
+                        for t0, lv in self.W.txt_lens:
+                            if (t0 is base or t0.same(base)) and is_rat(p) and (p - lv).is_const() and (p - lv).const_value().denominator == 1:
+                                k = int((p - lv).const_value())
+                        if k is None or k > 0:
+                            return Unknown(f"text slice bound {p!r}")
+                        bd.append(k if k < 0 else None)
                 return base.slice(bd[0], bd[1])
             k = const_int(ix) if is_rat(ix) else None
             if k is not None:
@@ -836,6 +904,9 @@ class OP4Eval(AutoEvaluator):
                 return base.d[key]
             return Unknown("dictionary key")
         if is_rat(base):
+            ub = unfn(base)
+            if ub is not None and ub[0] == "attr:shape" and is_rat(ix) and const_int(ix) == 0 and ub[1] and is_rat(ub[1][0]):
+                return self.len_of(ub[1][0])          # X.shape[0] is len(X)
             try:
                 return F.fn("idx", base, wrap(ix))
             except Unsupported as e:
@@ -1135,6 +1206,16 @@ class OP4Eval(AutoEvaluator):
             if any(is_unknown(x) for x in pos) or any(is_unknown(x) for x in kw.values()):
                 return next(x for x in list(pos) + list(kw.values()) if is_unknown(x))
             return brace_format(t, pos, kw)
+        if method == "join" and len(pos) == 1 and isinstance(pos[0], tuple):
+            parts = []
+            for k, x in enumerate(pos[0]):
+                tx = as_txt(x)
+                if tx is None:
+                    return x if is_unknown(x) else Unknown("join of non-text values")
+                if k:
+                    parts.append(t)
+                parts.append(tx)
+            return Txt(parts)
         if method == "join":
             return Unknown("join")
         if method in ("isidentifier", "isdigit", "isalpha"):
@@ -1174,6 +1255,9 @@ class OP4Eval(AutoEvaluator):
                 k = t.fixed_len()
                 if k is not None:
                     return F.const(k)
+                for t0, lv in W.txt_lens:
+                    if t0 is t or t0.same(t):
+                        return lv
                 # fixed part + one symbol per piece of unknown width (bounded below by its minimum)
                 tot = F.const(0)
                 for i, p in enumerate(t.p):
@@ -1185,6 +1269,7 @@ class OP4Eval(AutoEvaluator):
                         s = F.sym(f"<len{W.fresh}>")
                         W.bound(s, p.min_chars(), None)
                         tot = tot + s
+                W.txt_lens.append((t, tot))
                 return tot
             if is_rat(x):
                 return self.len_of(x)
@@ -1241,6 +1326,8 @@ class OP4Eval(AutoEvaluator):
             return F.fn("call:np." + name.split(".")[-1], pos[0])
         if name in ("np.transpose",) and n == 1 and is_rat(pos[0]):
             return F.fn("call:.transpose", pos[0])
+        if name in ("np.shape", "numpy.shape") and n == 1:
+            return self.attr_of(pos[0], "shape", node)
         if name in ("float",) and n == 1 and is_rat(pos[0]):
             return pos[0]
         if name in ("tuple", "list") and n == 1 and isinstance(pos[0], tuple):
@@ -1548,6 +1635,14 @@ class OP4Eval(AutoEvaluator):
                 W.bound(elems, 0, a[0] - 1)
             elif len(a) == 2:
                 W.bound(elems, a[0], a[1] - 1)
+        pair = elems
+        if u is not None and u[0] == "call:enumerate" and len(u[1]) == 1 and isinstance(elems, tuple) and len(elems) == 2:
+            u, pair = unfn(u[1][0]), elems[1]
+        if u is not None and u[0].endswith("_sparse_col_stats") and isinstance(pair, tuple) and len(pair) == 2 and all(is_rat(x) for x in pair) and W.shape_of:
+            # rows of the (start, length) table of the non-zero strings of a column
+            rows = next(iter(W.shape_of.values()))[0]
+            W.bound(pair[0], 0, rows - 1)
+            W.bound(pair[1], 1, rows)
         W.frames.append(fr)
         try:
             self._assign(st.target, elems, st)
@@ -1670,6 +1765,7 @@ def items_of(emits, recv=None):
 # ------------------------------------------------------------------------------------------------------------------ scenarios
 ROWS, COLS, B4 = F.sym("ROWS"), F.sym("COLS"), F.sym("B4")
 FILE = F.sym("FILE")
+OPAQUE_CORE = {"_sparse_col_stats", "_sparse_sort", "_is_symmetric", "_check_name", "_ensure_dp", "_check_write_names", "_get_ascii_block"}
 OPAQUE = {"_sparse_col_stats", "_sparse_sort", "_is_symmetric", "_check_name", "_ensure_dp", "_check_write_names", "_get_ascii_block",
           "_put_ascii_values", "_put_ascii_values_c", "_put_ascii_values_sparse", "_put_ascii_values_sparse_c", "_put_binary_values",
           "_put_binary_values_c", "_put_binary_values_sparse", "_put_binary_values_sparse_c", "_init_dense_real", "_init_dense_complex",
@@ -1738,10 +1834,6 @@ def base_world(ctx, state=None, kind="ndarray", cplx=True, rows=(1, None), cols=
     W.mult = F.const(2 if cplx else 1)
     W.kind, W.cplx = kind, cplx
     st = dict(state or {})
-    r4 = st.get("self._rows4bigmat")
-    if r4 is not None and is_rat(r4) and const_int(r4) is not None:
-        W.pinned["self._rows4bigmat"] = B4
-        W.bound(B4, const_int(r4), const_int(r4))
     W.pinned["self._fileh"] = FILE
     W.state = {k: v for k, v in st.items() if k not in W.pinned}
     if kind == "ndarray":
@@ -1830,10 +1922,6 @@ def loader_world(ctx, rstate, wW, binary, truths=None, extra_bounds=None):
     W.small = dict(wW.small)
     for a, b in (extra_bounds or {}).items():
         W.bounds[a] = b
-    r4 = rstate.get("self._rows4bigmat")
-    if r4 is not None and is_rat(r4) and const_int(r4) is not None:
-        W.pinned["self._rows4bigmat"] = B4
-        W.bound(B4, const_int(r4), const_int(r4))
     W.pinned["self._fileh"] = FILE
     W.state = {k: v for k, v in rstate.items() if k not in W.pinned}
     if binary:
